@@ -252,6 +252,9 @@ def run(rep):
              floor=9)
     rep.rule('R02.6', '_calculate_sro uses the current __sro__ of the current '
              'bases and always returns the root last', floor=3)
+    rep.rule('R02.7', 'every dependent is notified: the dependents table must '
+             'distinguish distinct dependents (identity), although interfaces compare '
+             'and hash by (__name__, __module__)', floor=1)
     rep.assume('the __bases__ graph is acyclic (the package does not enforce '
                'it; termination of the propagation depends on it)')
     rep.decline('none: by induction on the longest path the rules above give '
@@ -263,6 +266,8 @@ def run(rep):
     r02_3(rep, mod)
     specsem.subscription_counting(rep, mod, 'R02.3')
     r02_4(rep, repo)
+    from . import identsem
+    identsem.dependents_identity(rep, mod, 'R02.7')
     r02_5(rep, mod)
     specsem.extends_table(rep, mod, 'R02.5')
     r02_6(rep, mod)
